@@ -70,6 +70,10 @@ class Ref:
             self.hook(s, v)
         return v
 
+    def n_frac(self, s):
+        from fractions import Fraction
+        return Fraction(s[1], s[2])
+
     # containers
     def n_tuple(self, s):
         return tuple([self.ev(c) for c in s[1:]])
